@@ -85,7 +85,7 @@ func lexSpec(src string) ([]tok, error) {
 			out = append(out, tok{"chr", src[i : j+1]})
 			i = j + 1
 		default:
-			ops := []string{"<==>", "==>", "&&", "||", "==", "!=", "<=", ">=", "<<", ">>", "::", "&^"}
+			ops := []string{"<==>", "==>", "===", "&&", "||", "==", "!=", "<=", ">=", "<<", ">>", "::", "&^"}
 			matched := false
 			for _, op := range ops {
 				if strings.HasPrefix(src[i:], op) {
@@ -154,7 +154,7 @@ func (p *specParser) expect(op string) {
 
 var binPrec = map[string]int{
 	"<==>": 1, "==>": 2, "||": 4, "&&": 5,
-	"==": 6, "!=": 6, "<": 6, "<=": 6, ">": 6, ">=": 6,
+	"==": 6, "===": 6, "!=": 6, "<": 6, "<=": 6, ">": 6, ">=": 6,
 	"+": 7, "-": 7, "|": 7, "^": 7,
 	"*": 8, "/": 8, "%": 8, "<<": 8, ">>": 8, "&": 8, "&^": 8,
 }
